@@ -462,3 +462,31 @@ pub fn retarget_remove_proposal(suite: u16, csp: &VSuite, genuine: &[u8], new_le
     put_opaque(&mut out, &mtag);
     Some(out)
 }
+
+
+/// What a listed external sender that does not respect the sender rules could send: the body of a member's genuine public
+/// proposal (e.g. an Update) re-framed with `sender = external(index)` and signed with the external sender's key.
+pub fn reframe_proposal_as_external(csp: &VSuite, genuine_member_proposal: &[u8], ext_index: u32, ext_signer: &SignatureSecretKey) -> Option<Vec<u8>> {
+    let pm = wire::parse_public_message(genuine_member_proposal)?;
+    if pm.framed.content_type != 2 {
+        return None;
+    }
+    let g = genuine_member_proposal;
+    let sender_type = pm.spans.iter().find(|x| x.name == "sender_type")?;
+    let sender_index = pm.spans.iter().find(|x| x.name == "sender_index")?;
+    let mut framed = g[pm.framed.start..sender_type.start].to_vec();
+    framed.push(2); // external
+    framed.extend_from_slice(&ext_index.to_be_bytes());
+    framed.extend_from_slice(&g[sender_index.end..pm.framed.end]);
+    let mut ftbs = vec![];
+    ftbs.extend_from_slice(&pm.version.to_be_bytes());
+    ftbs.extend_from_slice(&1u16.to_be_bytes());
+    ftbs.extend_from_slice(&framed);
+    let sig = sign(csp, ext_signer, "FramedContentTBS", &ftbs)?;
+    let mut out = vec![];
+    out.extend_from_slice(&pm.version.to_be_bytes());
+    out.extend_from_slice(&1u16.to_be_bytes());
+    out.extend_from_slice(&framed);
+    put_opaque(&mut out, &sig);
+    Some(out)
+}
